@@ -33,6 +33,7 @@ class Job:
         self.pad = G.pad_frames(fmt, ch)
         self.parts = []
         self.snaps = []      # (store index, frames written so far)
+        self.garbage = 0     # the stale SF_INFO.frames passed at open (same in the single and split scripts)
 
     def name(self, i):
         return "%s-c%d-r%d-n%d-%s-%d" % (self.fmt.name, self.ch, self.sr, self.n, self.ty, i)
@@ -46,9 +47,10 @@ class Job:
         want = (self.n + self.B + self.pad + 8 + extra) * self.ch
         return ["r %s %s i %d" % (h, self.ty, want), "r %s %s i %d" % (h, self.ty, self.ch)]
 
-    def script_single(self, rng):
+    def script_single(self, rng, garbage=None):
         ch = self.ch
-        L = ["open h0 s0 w fmt=%08x ch=%d sr=%d frames=%d" % (self.fmt.word, ch, self.sr, rng.choice([0, 12345, 1 << 40]))]
+        g = self.garbage if garbage is None else garbage
+        L = ["open h0 s0 w fmt=%08x ch=%d sr=%d frames=%d" % (self.fmt.word, ch, self.sr, g)]
         if self.n > 0:
             L.append(S.w_line("h0", self.ty, "f", self.n, self.vals))
         L += ["close h0", "dump s0", self.open_r("h1", "s0"), "info h1"] + self.read_all("h1") + ["close h1"]
@@ -58,7 +60,7 @@ class Job:
         ch = self.ch
         self.parts = partition(rng, self.n)
         auto = updates and rng.random() < 0.25
-        L = ["open h0 s1 w fmt=%08x ch=%d sr=%d frames=%d" % (self.fmt.word, ch, self.sr, rng.choice([0, 7, 99999]))]
+        L = ["open h0 s1 w fmt=%08x ch=%d sr=%d frames=%d" % (self.fmt.word, ch, self.sr, self.garbage)]
         if auto:
             L.append("cmd h0 1061 1 null")
         done = 0
@@ -102,7 +104,9 @@ def make_jobs(ctx, stride=1, channels=(1, 2, 3), skip_major=(0x16,)):
                 ty, lowzero = rng.choice(["s16", "s16", "s32", "f32", "f64"]), 0
             unit = (not loss) or f.codec in (0x10, 0x11)
             vals = gen_values(rng, ty, n * ch, lowzero, unit=unit and ty in ("f32", "f64"))
-            jobs.append(Job(f, ch, sr, n, ty, vals, lowzero if loss else None))
+            j = Job(f, ch, sr, n, ty, vals, lowzero if loss else None)
+            j.garbage = rng.choice([0, 0, 7, 12345, 1 << 40])
+            jobs.append(j)
     if stride > 1:
         jobs = jobs[rng.randrange(stride)::stride]
     return jobs
@@ -113,11 +117,22 @@ def run_jobs(ctx, jobs, updates=True):
     rng = ctx.rng
     s1 = [(j.name(i) + "-one", j.script_single(rng)) for i, j in enumerate(jobs)]
     s2 = [(j.name(i) + "-split", j.script_split(rng, updates)) for i, j in enumerate(jobs)]
-    out = ctx.batch(s1 + s2)
+    # same samples, same calls, another stale frames value at open: the bytes must not change (C04)
+    s3 = [(j.name(i) + "-stale", j.script_single(rng, garbage=99999 if j.garbage != 99999 else 3)) for i, j in enumerate(jobs)]
+    out = ctx.batch(s1 + s2 + s3, clean=True)
     res = []
     for i, j in enumerate(jobs):
-        a, b = out.get(s1[i][0], []), out.get(s2[i][0], [])
-        res.append(analyse(j, s1[i][1], a, s2[i][1], b))
+        a, b, c = out.get(s1[i][0], []), out.get(s2[i][0], []), out.get(s3[i][0], [])
+        r = analyse(j, s1[i][1], a, s2[i][1], b)
+        d1 = next((l for l in a if l.startswith("len=") and "hex=" in l), None)
+        d3 = next((l for l in c if l.startswith("len=") and "hex=" in l), None)
+        r["script3"] = s3[i][1]
+        if d1 is not None and d3 is not None and d1 != d3:
+            h1, h3 = d1.split("hex=")[1], d3.split("hex=")[1]
+            d = next((k for k in range(0, min(len(h1), len(h3)), 2) if h1[k:k + 2] != h3[k:k + 2]), min(len(h1), len(h3)))
+            r["problems"].append(("stale", "the stale SF_INFO.frames value passed at open (%d vs %d) changes the closed file: first difference at byte offset %d (%s vs %s)"
+                                  % (j.garbage, 99999 if j.garbage != 99999 else 3, d // 2, h1[d:d + 8], h3[d:d + 8]), 3, None))
+        res.append(r)
     return res
 
 
